@@ -407,7 +407,12 @@ def render_all(ir):
         elif k == "ret":
             if not env["is_func"]:
                 raise RenderError("return at top level")
-            emit("return %d;" % st[1] if st[1] is not None else "return;", ind)
+            if st[1] is None:
+                emit("return;", ind)
+            elif st[1] % 2 == 1:
+                emit('return [%d, ("r", %d)];' % (st[1], st[1]), ind)      # a fresh heap object in flight
+            else:
+                emit("return %d;" % st[1], ind)
         elif k == "brk":
             if not env["loop_ok"]:
                 raise RenderError("break outside loop")
@@ -537,6 +542,14 @@ class Fatal(Exception):
         self.needle = needle
 
 
+def ret_enc(v):
+    if v is None:
+        return None
+    if v % 2 == 1:
+        return {"v": [num(v), tup(s("r"), num(v))]}
+    return num(v)
+
+
 def thrown_for_kind(kind, site):
     c = kind_class(kind)
     return Thrown(cls(c), inst(c), c)
@@ -630,7 +643,7 @@ def model(ir, tape, faults):
                 block(f["body"], fenv)
                 r = None
             except Ret as rr:
-                r = num(rr.v) if rr.v is not None else None
+                r = ret_enc(rr.v)
             except Thrown as t:
                 if f["how"] == "fiber":
                     # uncaught inside the callee's own fiber: no handler of another fiber may see it
@@ -767,7 +780,7 @@ def model(ir, tape, faults):
             block(ir["main"], env0)
             r = None
         except Ret as rr:
-            r = num(rr.v) if rr.v is not None else None
+            r = ret_enc(rr.v)
         ev.append([num(0), r])
         outcome = {"uncaught": "tail-probe"}
     except Thrown as t:
@@ -837,7 +850,7 @@ class C08:
     MAX_ENUM = 40
 
     def configs(self, tier):
-        return ["checked", "release"]
+        return ["checked", "release", "checked+hooks"]
 
     def plan(self, tier):
         return 6000 if tier == "quick" else 300000
@@ -950,11 +963,18 @@ class C08:
             h = ctx.run("checked", sc)
             stats.inc("executions")
             return res
-        for config in ("checked", "release"):
-            h = ctx.run(config, sc)
+        runs = [("checked", None), ("release", None)]
+        if key % 8 == 0 or sc.get("force_gc_slice"):
+            # a slice of the plans also runs with collect-at-every-allocation + quarantine: values in flight (thrown objects,
+            # returned objects parked while a finally block runs) must survive
+            runs.append(("checked+hooks", {"gc": {"mode": "always", "quarantine": True}}))
+        for config, cfg in runs:
+            h = ctx.run(config, dict(sc, config=cfg) if cfg else sc)
             stats.inc("executions")
             stats.inc("executions:" + config)
             v = compare(exp, h)
+            if v is None and cfg and (h.get("gc") or {}).get("uar_count", 0) > 0:
+                v = {"class": "use-after-reclaim", "msg": "value in flight reclaimed: %s" % json.dumps(h["gc"].get("uar", [])[:2])}
             if v:
                 v["config"] = config
                 v["msg"] = "[%s] %s" % (config, v["msg"])
